@@ -64,6 +64,8 @@ def gen_stat_overlay(rng, world):
 def gen_keys(rng):
     nk = rng.choice([1, 1, 2, 2, 3])
     keys = rng.sample(sorted(KEYS), nk)
+    if nk >= 2 and rng.random() < 0.15:
+        keys[-1] = keys[0]  # a key may be named twice (e.g. once by position, once by name); the later mention is redundant
     return [{"key": k, "desc": rng.random() < 0.4, "asc_word": rng.random() < 0.2} for k in keys]
 
 
